@@ -114,6 +114,17 @@ def roundtrip(pattern, vinfo):
     again = v1version.format_version(back, pattern)
     if again != text:
         return ("rerender-differs", {}, dict(detail, again=again))
+    # calendar parts that the carried ones determine (year + day of year -> month, day, quarter; month -> quarter) are what
+    # other search patterns of the same project ({year}-Q{quarter}, ...) are rendered from: they must read back as well
+    determined = []
+    if "year" in fields and "doy" in fields:
+        determined = ["month", "dom", "quarter"]
+    elif "month" in fields:
+        determined = ["quarter"]
+    for f in determined:
+        if getattr(back, f, None) != getattr(vinfo, f, None):
+            return ("derived-calendar-part-reads-back-different:" + f, {"field": f},
+                    dict(detail, field=f, rendered_from=getattr(vinfo, f, None), read=getattr(back, f, None)))
     return None
 
 
